@@ -69,8 +69,7 @@ Section MemberLines.
     match d with
     | None => True
     | Some desc => desc <> [] /\ po_descriptions o = true
-                   /\ noquote_body (description_body o desc depth)
-                   /\ SdlRoundtripSpec.block_string_value (description_body o desc depth) = desc
+                   /\ desc_body_ok (description_body o desc depth) desc
     end.
 
   Lemma ind1 : ind o 1 = po_indent o.
@@ -90,14 +89,14 @@ Section MemberLines.
     intros Hd Hlead HL Hadd.
     assert (Hplain : LexOK (lead ++ core) P0) by (apply lexok_lead; [apply ws_ignorable; exact Hlead|exact HL]).
     destruct d as [[|c r]|]; try exact Hplain.
-    destruct Hd as (_ & Hp & Hb & Hv). unfold print_description. rewrite Hp. cbn [negb].
+    destruct Hd as (_ & Hp & Hb). unfold print_description. rewrite Hp. cbn [negb].
     set (pre := if nonempty (ind o depth) && negb first then nl else []).
     assert (Hpre : ignorable (pre ++ ind o depth)).
     { unfold pre. destruct (nonempty (ind o depth) && negb first).
       - constructor; [reflexivity|apply ws_ignorable; apply ind_ws].
       - apply ws_ignorable; apply ind_ws. }
     rewrite <- !app_assoc. rewrite (app_assoc pre). apply lexok_lead; [exact Hpre|].
-    pose proof (desc_prefix_lexok (description_body o (c :: r) depth) (c :: r) (lead ++ core) P0 Hb Hv Hplain) as H.
+    pose proof (desc_prefix_lexok (description_body o (c :: r) depth) (c :: r) (lead ++ core) P0 Hb Hplain) as H.
     unfold Q3s, triple in *. rewrite <- !app_assoc in H. cbn [app] in H |- *.
     eapply lexok_weaken; [|exact H]. intros ts (dsts & rest & -> & HD & HP). apply Hadd; assumption.
   Qed.
